@@ -870,22 +870,25 @@ Definition verdict_eqb (a b : verdict) : bool :=
   | _, _ => false
   end.
 
+(* Compile + Validate once the dialect of the root resource is known *)
+Definition run_with (dl : dialect_res) (doc v : val) : verdict :=
+  match dl with
+  | DialError => VSchemaError
+  | DialUnsupported => VUnsupported
+  | DialOk dr =>
+      if negb (supported dr doc true doc && nums_ok v) then VUnsupported
+      else if negb (meta_ok dr doc) then VSchemaError
+      else match ev doc dr (fuel_of doc v) [] [] doc v with
+           | Some true => VOk
+           | Some false => VViolation
+           | None => VFuel
+           end
+  end.
+
 (* ValidateAgainstSingleSchema with a compiler whose default draft is [dflt] *)
 Definition run (dflt : draft) (doc v : val) : verdict :=
   match doc with
-  | VMap _ | VBool _ =>
-      match dialect_of dflt doc with
-      | DialError => VSchemaError
-      | DialUnsupported => VUnsupported
-      | DialOk dr =>
-          if negb (supported dr doc true doc && nums_ok v) then VUnsupported
-          else if negb (meta_ok dr doc) then VSchemaError
-          else match ev doc dr (fuel_of doc v) [] [] doc v with
-               | Some true => VOk
-               | Some false => VViolation
-               | None => VFuel
-               end
-      end
+  | VMap _ | VBool _ => run_with (dialect_of dflt doc) doc v
   | _ => VUnsupported
   end.
 
